@@ -52,6 +52,9 @@ func Decode(packet []byte, options Options) (_ any, _ []byte, ret error) {
 		return nil, packet, nil
 	}
 	state.decoder = dec
+	if err := allocGuard(dec.Type, 1, packet); err != nil {
+		return nil, nil, fmt.Errorf("malformed EDF: %w", err)
+	}
 	v := reflect.Indirect(reflect.New(dec.Type))
 
 	value, packet, err := dec.Decode(&v, packet, state)
@@ -63,6 +66,22 @@ func Decode(packet []byte, options Options) (_ any, _ []byte, ret error) {
 		return v.Interface(), packet, nil
 	}
 	return value.Interface(), packet, nil
+}
+
+// allocGuard refuses to allocate n values of type t for a packet that cannot
+// possibly hold them. The most compact encoding takes one byte (a nil slice, map
+// or interface inside an array) per 8..24 bytes of memory, so a declared size
+// far beyond 64 times the data that is left comes from a malformed or hostile
+// type descriptor or length field, not from the encoder.
+func allocGuard(t reflect.Type, n int, packet []byte) error {
+	size := uint64(t.Size())
+	if size == 0 || n <= 0 {
+		return nil
+	}
+	if size*uint64(n) > 64*uint64(len(packet))+4096 {
+		return fmt.Errorf("declared size of %v (x%d) exceeds the data", t, n)
+	}
+	return nil
 }
 
 func getDecoder(packet []byte, state *stateDecode) (*decoder, []byte, error) {
@@ -215,6 +234,13 @@ func decodeType(fold []byte, state *stateDecode) (*decoder, []byte, error) {
 				return nil, nil, fmt.Errorf("incorrect data length")
 			}
 
+			if err := allocGuard(decKey.Type, 1, packet); err != nil {
+				return nil, nil, err
+			}
+			if err := allocGuard(decValue.Type, 1, packet); err != nil {
+				return nil, nil, err
+			}
+
 			x := reflect.MakeMapWithSize(vtype, n)
 			if value == nil {
 				value = &x
@@ -319,6 +345,9 @@ func decodeType(fold []byte, state *stateDecode) (*decoder, []byte, error) {
 			if n > len(packet) {
 				return nil, nil, fmt.Errorf("incorrect data length")
 			}
+			if err := allocGuard(decItem.Type, n, packet); err != nil {
+				return nil, nil, err
+			}
 
 			x := reflect.MakeSlice(vtype, n, n)
 			if value == nil {
@@ -385,6 +414,12 @@ func decodeType(fold []byte, state *stateDecode) (*decoder, []byte, error) {
 			if value == nil {
 				x := reflect.Indirect(reflect.New(vtype))
 				value = &x
+			}
+
+			if decItem.Type.Size() == 0 {
+				// zero-size items take no bytes on the wire and have a single
+				// value: nothing to decode, whatever the declared count is
+				return value, packet, nil
 			}
 
 			if state.child == nil {
@@ -1150,6 +1185,10 @@ func decodeAny(value *reflect.Value, packet []byte, state *stateDecode) (*reflec
 
 	if dec == nil {
 		return value, p, nil
+	}
+
+	if err := allocGuard(dec.Type, 1, p); err != nil {
+		return nil, nil, err
 	}
 
 	if value == nil {
